@@ -111,6 +111,8 @@ def run_shard(spec, tier, seed):
     res = Result()
     sets = all_sets()
     mine = sets[spec["i"]::spec["n"]]
+    if spec["i"] == 0:
+        run_classmethods(res, seed)
     r = gen.rng(seed, "C06", spec["i"])
     objclasses = {(d, m): getattr(vector, ("MomentumObject" if m else "VectorObject") + f"{d}D") for d in (2, 3, 4) for m in (False, True)}
 
@@ -164,6 +166,17 @@ def run_shard(spec, tier, seed):
                 else:
                     check_object(v, names, vals, system, mom, "obj")
         res.cell("obj", key)
+        # vector.Vector(**names) is documented to be vector.obj
+        res.evaluations += 1
+        try:
+            vv = ("ok", vector.Vector(**dict(vals)))
+        except TypeError:
+            vv = ("TypeError", None)
+        except Exception as e:
+            vv = (type(e).__name__, None)
+        if vv[0] != o[0] or (vv[0] == "ok" and (type(vv[1]) is not type(o[1]) or B.obj_stored(vv[1])[0] != B.obj_stored(o[1])[0]
+                                                or [_bits(x) for x in B.obj_stored(vv[1])[1]] != [_bits(x) for x in B.obj_stored(o[1])[1]])):
+            V("Vector-constructor-differs-from-obj", names=names, obj=o[0], Vector=vv[0])
         # ------------------------------------------------------------------ the six object classes
         for (d, m), cls in objclasses.items():
             res.evaluations += 1
@@ -296,8 +309,50 @@ def _why_invalid(names, d=None):
     return "reason=other"
 
 
+def run_classmethods(res, seed):
+    """from_<system>() classmethods and module aliases"""
+    import vector
+
+    r = gen.rng(seed, "C06cm")
+    for system in R.ALL_SYSTEMS:
+        dim = len(system) + 1
+        mname = "from_" + "".join(R.field_names(system))
+        for mom in (False, True):
+            cls = getattr(vector, ("MomentumObject" if mom else "VectorObject") + f"{dim}D")
+            vals = [r.choice([float(gen.dyadic(r, 0.25, 3)), int(r.randint(1, 5)), -0.0, numpy.float32(1.5)]) for _ in R.field_names(system)]
+            res.evaluations += 1
+            try:
+                v = getattr(cls, mname)(*vals)
+            except Exception as e:
+                res.violation(f"C06/classmethod-raises method={mname}", {"cls": cls.__name__, "exc": f"{type(e).__name__}: {e}"[:200]})
+                continue
+            gsys, stored = B.obj_stored(v)
+            if type(v) is not cls:
+                res.violation(f"C06/classmethod-wrong-class method={mname}", {"cls": cls.__name__, "got": type(v).__name__})
+            if gsys != system or any(a is not b and _bits(a) != _bits(b) for a, b in zip(stored, vals)):
+                res.violation(f"C06/classmethod-wrong-content method={mname}", {"cls": cls.__name__, "got": repr(v), "given": [repr(x) for x in vals]})
+            # wrong number of arguments must raise
+            try:
+                getattr(cls, mname)(*vals[:-1])
+                res.violation(f"C06/classmethod-accepts-missing-argument method={mname}", {"cls": cls.__name__})
+            except TypeError:
+                pass
+            res.cell("classmethod", mname, cls.__name__)
+        for other in R.ALL_SYSTEMS:
+            if len(other) != len(system):
+                oname = "from_" + "".join(R.field_names(other))
+                cls = getattr(vector, f"VectorObject{dim}D")
+                if hasattr(cls, oname):
+                    res.violation("C06/classmethod-of-another-dimension-present", {"cls": cls.__name__, "method": oname})
+    if vector.arr is not vector.array or vector.awk is not vector.Array:
+        res.violation("C06/module-alias-differs", {"arr": repr(vector.arr), "awk": repr(vector.awk)})
+    res.cell("aliases", "arr/awk")
+
+
 def finalize(total, tier, seed):
     n_obj = sum(1 for c in total.cells if c.startswith("obj|"))
+    if not any(c.startswith("classmethod|") for c in total.cells):
+        total.inconc("from_<system> classmethods never judged")
     if n_obj < 16663:
         total.inconc(f"only {n_obj} of 16663 name sets reached vector.obj")
     return {"name_sets": n_obj, "exhaustive": n_obj >= 16663}
